@@ -392,6 +392,8 @@ func runC05(c *Cfg) {
 			kinds = []string{"cancel-cause", "deadline"}
 		} else if i%3 == 1 {
 			kinds = []string{"cancel-far", "deadline"} // cancelled by hand although the context's own deadline is hours away
+		} else if i%6 == 2 {
+			kinds = []string{"own-error", "cancel"} // a hand-written context that reports an error value of its own
 		}
 		for p := 0; p < len(ref); p++ {
 			for _, k := range kinds {
@@ -412,7 +414,7 @@ func runC05(c *Cfg) {
 				}
 			}
 		}
-		for _, k := range []string{"pre-cancel", "pre-deadline", "pre-expired", "pre-cancel-far"} {
+		for _, k := range []string{"pre-cancel", "pre-deadline", "pre-expired", "pre-cancel-far", "pre-own-error"} {
 			v := base.Clone()
 			v.Inject = scen.Inject{Kind: k}
 			if i%2 == 0 {
